@@ -91,7 +91,8 @@ def replay(spec, u, unit_res, trace, scratch, REPO, VERIF):
         exe = build_janet(scratch, VERIF)
         if not exe:
             return False, 'could not build janet from the working tree for replay'
-        script = spec.get('script') or open(os.path.join(VERIF, 'replay', spec['script_file'])).read()
+        sfile = spec.get('script_file') or ''
+        script = spec.get('script') or open(sfile if sfile.startswith('/') else os.path.join(VERIF, 'replay', sfile)).read()
         for k, v in vals.items():
             script = script.replace('{' + k + '}', str(v))
         sp = os.path.join(scratch, 'replay_%s.janet' % re.sub(r'\W', '_', u['id']))
@@ -106,8 +107,8 @@ def replay(spec, u, unit_res, trace, scratch, REPO, VERIF):
         crashed = rc < 0 or rc >= 128 or 'AddressSanitizer' in err or 'runtime error:' in err or 'SUMMARY: UndefinedBehaviorSanitizer' in err
         if hung:
             crashed = bool(spec.get('hang_is_failure'))
-        bad = crashed or 'REPLAY-FAIL' in out
-        txt = 'inputs from counterexample: %s\nscript:\n%s\nexit=%s hung=%s\nstdout: %s\nstderr: %s' % (
+        bad = crashed or 'REPLAY-FAIL' in out or (bool(spec.get('fail_on_nonzero')) and rc != 0 and not hung)
+        txt = ('regression script for the clause (fixed inputs, not derived from the counterexample)\n' if spec.get('regression_script') else '') + 'inputs from counterexample: %s\nscript:\n%s\nexit=%s hung=%s\nstdout: %s\nstderr: %s' % (
             json.dumps(vals)[:600], script[:1500], rc, hung, out[-600:], err[-1500:])
         return bad, txt
     if kind == 'c':
